@@ -272,6 +272,9 @@ func (c *Ctx) Finish() int {
 		switch o.Status {
 		case Discharged:
 			nDis++
+			if os.Getenv("PDFVERIF_VERBOSE") != "" {
+				fmt.Printf("discharged rule=%s key=%s evals=%d facts=%v\n", o.Rule, o.Key, o.Evals, o.Facts)
+			}
 			continue
 		}
 		if o.Status == Violated {
